@@ -137,7 +137,11 @@ def gen_value_case(ch):
                 inputs.append('')
             else:
                 n = {'short': ch.int(1, max(1, nbytes - 1)), 'exact': nbytes, 'long': nbytes + ch.int(1, 5)}[k]
-                inputs.append(''.join(ch.choice('abcXYZ 09-\xe9\xff"\'') for _ in range(n)))
+                # (NUL octets and octet pairs that happen to be valid UTF-8 are ordinary latin-1 characters of the field)
+                txt = ''.join(ch.choice('abcXYZ 09-\xe9\xff"\'\x00\x00\xc3\xbc') for _ in range(n))
+                if set(txt) == {'\x00'}:
+                    txt = 'a' + txt[1:]        # an all-NUL value is outside the domain (DESIGN 10-2)
+                inputs.append(txt)
         return ValueCase(mv, ids, pos, inputs, compressed, ch.choice([4, 3]))
     if f.nbits > 40 or f.nbits < 1:
         raise Reject('effective width outside 1..40 bits')
